@@ -34,6 +34,13 @@ func (e *Engine) verifyFunc(fn *ssa.Function, ct *Contract, slice map[string]boo
 		}
 		v := vc.havocVal(p.Type(), "p_"+name, "alloc~0")
 		args = append(args, v)
+		if i == 0 && e.selfIface != nil && fn.Signature.Recv() != nil {
+			// implementer mode: the contract's receiver is the interface value holding this receiver
+			fr := &frame{vc: vc}
+			te.bind(name, Val{t: fr.makeIface(p.Type(), v)}, e.selfIface)
+			te.bind(p.Name(), v, p.Type())
+			continue
+		}
 		te.bind(name, v, p.Type())
 		if p.Name() != name {
 			te.bind(p.Name(), v, p.Type())
